@@ -1040,3 +1040,37 @@ def papr_weak_signal_inputs(cfg):
     papr = float(p.max() / p.mean())
     yield "admissible_non_sparse_signal", nonsparse, f"{sum(1 for v in mags if v >= mags[-1] / 10)} of {len(mags)} samples within 20 dB of the peak"
     yield "output_papr_within_limit", papr <= L * (1 + 1e-6), f"PAPRConstraint({L}) on a weak real signal (mean power {float((x ** 2).mean()):.3g}): output PAPR {papr:.4f} > limit {L}" if papr > L else f"output PAPR {papr:.4f}"
+
+
+# ================================================================================================ non-contiguous views (closed)
+@obligation("C08.noncontiguous_views", function=FP + ":TotalPowerConstraint.forward; " + FP + ":AveragePowerConstraint.forward; " + FP + ":PAPRConstraint.forward; " + FS + ":PeakAmplitudeConstraint.forward; kaira/constraints/antenna.py:PerAntennaPowerConstraint.forward",
+            configs=lambda tier: [Cfg("views", k) for k in ("total", "avg", "papr", "peak", "antenna")], kind="ground", engine="ground")
+def noncontiguous_views(cfg):
+    """the constraint applied to a non-contiguous VIEW (dense permuted / channels-last, transposed, every second sample) returns what it
+    returns for a contiguous copy of the same numbers, and the limit it enforces holds on that output.  Closed: fixed seeded inputs,
+    real and complex, 2-D to 4-D."""
+    from kaira.constraints import AveragePowerConstraint, PAPRConstraint, PeakAmplitudeConstraint, PerAntennaPowerConstraint, TotalPowerConstraint
+
+    kind = cfg[1]
+    mk = {"total": lambda: TotalPowerConstraint(2.0), "avg": lambda: AveragePowerConstraint(0.5), "papr": lambda: PAPRConstraint(2.5), "peak": lambda: PeakAmplitudeConstraint(0.8), "antenna": lambda: PerAntennaPowerConstraint(uniform_power=1.0)}[kind]
+    g = torch.Generator().manual_seed(8)
+    bad, n = [], 0
+    for cplx in (False, True):
+        if cplx and kind == "peak":
+            continue  # PeakAmplitudeConstraint is real-valued (C08.peak_amplitude_complex)
+        def rnd(*shape):
+            t = torch.randn(*shape, generator=g) * 3
+            return torch.complex(t, torch.randn(*shape, generator=g)) if cplx else t
+        views = [("permuted_3d", rnd(5, 64, 4).permute(0, 2, 1)), ("channels_last_4d", rnd(3, 8, 8, 2).permute(0, 3, 1, 2)), ("every_second_sample", rnd(4, 2, 64)[..., ::2]), ("transposed_2d", rnd(32, 4).t())]
+        for nm, xv in views:
+            if kind == "antenna" and xv.dim() < 3:
+                continue
+            n += 1
+            try:
+                a, b = mk()(xv), mk()(xv.contiguous())
+            except Exception as e:
+                bad.append(f"{nm} complex={cplx}: raised {e!r}")
+                continue
+            if a.shape != b.shape or not torch.allclose(a, b, rtol=1e-5, atol=1e-6):
+                bad.append(f"{nm} complex={cplx} strides {tuple(xv.stride())}: result for the view differs from the result for a contiguous copy (max |diff| {float((a - b).abs().max()) if a.shape == b.shape else 'shape'}; output power {float(a.abs().pow(2).mean()):.4g} vs {float(b.abs().pow(2).mean()):.4g})")
+    yield "view_equals_contiguous_copy", not bad, "; ".join(bad[:3]) or f"{n} views"
